@@ -42,7 +42,7 @@ def evaluate(spec):
     dims = (2 if v.get("explicit") or v.get("straddle") else 0) + sum(1 for k in ("shuffle", "crlf") if v.get(k)) + sum(1 for k in ("comments", "blanks", "unrelated", "dup") if v.get(k, 0) > 0) + \
         (1 if v.get("upper", "none") != "none" else 0)
     uses_dsb = bool(v.get("dsb"))
-    labels = ["dsbpos:" + v.get("dsb_pos", "first") if v.get("dsb") else "dsbpos:-", "delivery:" + ("dsb-only" if uses_dsb and not v.get("file", True) else "file+dsb" if uses_dsb else "file"),
+    labels = ["dsbpos:" + (v["dsb_pos"] if isinstance(v.get("dsb_pos"), str) else "+".join(v.get("dsb_pos") or ["first"])) if v.get("dsb") else "dsbpos:-", "delivery:" + ("dsb-only" if uses_dsb and not v.get("file", True) else "file+dsb" if uses_dsb else "file"),
               "dsbs:%d" % len(v.get("dsb") or []), "upper:" + v.get("upper", "none"), "sub" if sub else "inproc",
               "kinds:" + "+".join(sorted({c["kind"] for c in spec["conns"]}))]
     if v.get("straddle"):
@@ -116,6 +116,16 @@ def spec_strategy(draw, sub=False):
     b = scenario.build_conns(sc)
     tls_only = all(c["kind"] == "tls" for c in conns)
     sc["variant"] = draw(variant(len(b.keylog), tls_only))
+    if not tls_only and not sub and any(c["kind"] == "tls" for c in conns) and draw(st.booleans()):
+        # mixed capture: the secrets of the QUIC connections in a block in front, those of the TLS connections in a block anywhere
+        qcr = {cn.cr.hex() for cn, cs in zip(b.conns, conns) if cs["kind"] == "quic"}
+        qi = [i for i, ln in enumerate(b.keylog) if ln.split(" ")[1] in qcr]
+        ti = [i for i in range(len(b.keylog)) if i not in qi]
+        sc["variant"].update(file=draw(st.booleans()), dsb=[qi, ti], dsb_pos=[draw(st.sampled_from(["first", "before_idb"])), "spread"])
+        if sc["variant"]["file"]:
+            sc["variant"]["file_lines"] = qi          # ... or the QUIC secrets in the -s file and the TLS secrets in a block anywhere
+            sc["variant"]["dsb"] = [ti]
+            sc["variant"]["dsb_pos"] = ["spread"]
     if sub:
         sc["sub"] = {"cwd": draw(st.sampled_from(["tmp", "root", "work"]))}
         sc["variant"]["file"] = False        # the README's second form: no -s at all, secrets only inside the capture
